@@ -1703,6 +1703,28 @@ def check(tier, seed):
         run.fail_case(f'superlinear:{name}', f'decode time of the {name} UPDATE shape grows x{r1:.1f} (16k->32k) and x{r2:.1f} (32k->64k) per doubling of the size',
                       {'shape': name, 'seconds_by_size': {str(k): round(v, 6) for k, v in row.items()}, 'negotiated': ctx('ext-all').params})
 
+    # ---- work per octet on repetition shapes
+    t0 = time.time()
+    wtable, wslow = measure_work(tier)
+    t_work = time.time() - t0
+    run.obligation(
+        f'work per octet is bounded: {len(wtable)} repetition shapes (every known attribute code and three unknown ones repeated as hundreds '
+        f'of small copies / three large copies / one attribute of many inner elements, the same element repeated inside an attribute, every '
+        f'capability repeated in an OPEN) at 1k..{"64k" if tier != "quick" else "16k"} octets: function calls per octet within x{WORK_FACTOR} of the 1k body '
+        f'(deterministic), best-of-3 seconds per octet within x{TIME_FACTOR}',
+        not wslow, '; '.join(f'{n}: calls/octet x{b.get("calls_per_octet_ratio")} seconds/octet x{b.get("seconds_per_octet_ratio")} at {b["octets"]} octets' for n, _, b, _ in wslow),
+    )
+    for name, rows, b, cx in wslow:
+        small = next((r for r in rows[1:] if r.get('calls_per_octet_ratio', 0) > WORK_FACTOR), b)
+        run.fail_case(
+            f'superlinear:{name}',
+            f'decoding the {name} shape is not proportional to its size: function calls per octet x{b.get("calls_per_octet_ratio")}, '
+            f'seconds per octet x{b.get("seconds_per_octet_ratio")} at {b["octets"]} octets against the {rows[0]["octets"]} octet body',
+            {'shape': name, 'message_type': small['type'], 'negotiated': cx.params,
+             'body_hex': small['body'].hex() if len(small['body']) <= 6000 else small['body'][:6000].hex() + '...', 'body_octets': len(small['body']),
+             'measures': [{k: v for k, v in r.items() if k != 'body'} for r in rows],
+             'entry_point': 'Message.unpack + Update.data + one pass over the routes + attributes.json(), function calls counted with sys.setprofile'})
+
     # ---- coverage
     dist = collections.Counter((c['klass'], tname(c['ty']) if c['ty'] in TYPE_NAME else 'unknown-type') for c in cases)
     outd = collections.Counter((tname(c['ty']) if c['ty'] in TYPE_NAME else 'unknown-type',
@@ -1737,8 +1759,9 @@ def check(tier, seed):
         'walk_shape': sh,
         'recursion_threshold_attributes': threshold,
         'decode_seconds_by_size': table,
+        'work_per_octet': {k: v for k, v in wtable.items()},
         'timing_s': {'generation': round(t_gen, 1), 'implementation': round(t_impl, 1), 'read_message': round(t_read, 1),
-                     'coq_evaluation': round(t_model, 1), 'timing_measurement': round(t_time, 1)},
+                     'coq_evaluation': round(t_model, 1), 'timing_measurement': round(t_time, 1), 'work_measurement': round(t_work, 1)},
         'exhaustive': False,
     })
     for c, o in list(zip(cases, outs))[:: max(1, len(cases) // 6)][:6]:
@@ -2078,3 +2101,236 @@ def gen_families(rng, tier):
             x = update([attr(0x80, 15, struct.pack('!HB', afi, safi) + nlri)])
             cases.append(mk(2, x.b, ctxn, 'valid', f'mp-unreach-{name.replace(" ", "-")}', x.marks, family=[afi, safi]))
     return cases
+
+
+# ------------------------------------------------------------------------------- work per octet (repetition shapes)
+
+
+def small_large_values(c):
+    """attribute code -> (flags, small well-formed value, f(n) -> large value made of n inner elements or None)"""
+    a4 = c.asn4
+    asn = (lambda x: struct.pack('!L', x)) if a4 else (lambda x: struct.pack('!H', x & 0xFFFF))
+    seg = lambda k: bytes([2, k]) + b''.join(asn(64512 + (i % 1000)) for i in range(k))  # noqa: E731
+    seg4 = lambda k: bytes([2, k]) + b''.join(struct.pack('!L', 70000 + i) for i in range(k))  # noqa: E731
+    v6 = bytes([0x20, 1, 0x0d, 0xb8] + [0] * 11 + [1])
+    return {
+        1: (0x40, b'\x00', None),
+        2: (0x40, seg(1), lambda n: b''.join(seg(min(255, n - i)) for i in range(0, n, 255))),
+        3: (0x40, bytes([10, 0, 0, 1]), None),
+        4: (0x80, struct.pack('!L', 5), None),
+        5: (0x40, struct.pack('!L', 100), None),
+        6: (0x40, b'', None),
+        7: (0xC0, asn(65000) + bytes([192, 0, 2, 1]), None),
+        8: (0xC0, struct.pack('!HH', 65000, 1), lambda n: b''.join(struct.pack('!HH', 65000, i & 0xFFFF) for i in range(n))),
+        9: (0x80, bytes([192, 0, 2, 9]), None),
+        10: (0x80, bytes([1, 1, 1, 1]), lambda n: b''.join(struct.pack('!L', 0x01000000 + i) for i in range(n))),
+        14: (0x80, struct.pack('!HBB', 2, 1, 16) + v6 + b'\x00' + bytes([32, 0x20, 1, 0x0d, 0xb8]),
+             lambda n: struct.pack('!HBB', 2, 1, 16) + v6 + b'\x00' + b''.join(bytes([48, 0x20, 1, 0x0d, 0xb8, i >> 8 & 0xFF, i & 0xFF]) for i in range(n))),
+        15: (0x80, struct.pack('!HB', 2, 1) + bytes([32, 0x20, 1, 0x0d, 0xb8]),
+             lambda n: struct.pack('!HB', 2, 1) + b''.join(bytes([48, 0x20, 1, 0x0d, 0xb8, i >> 8 & 0xFF, i & 0xFF]) for i in range(n))),
+        16: (0xC0, bytes([0, 2]) + struct.pack('!HL', 65000, 1), lambda n: b''.join(bytes([0, 2]) + struct.pack('!HL', 65000, i) for i in range(n))),
+        17: (0xC0, seg4(1), lambda n: b''.join(seg4(min(255, n - i)) for i in range(0, n, 255))),
+        18: (0xC0, struct.pack('!L', 70000) + bytes([192, 0, 2, 1]), None),
+        22: (0xC0, bytes([0, 0, 0, 0, 0]), None),
+        23: (0xC0, struct.pack('!HH', 8, 6) + bytes([4, 4, 0, 0, 0, 1]), lambda n: b''.join(struct.pack('!HH', 8, 6) + bytes([4, 4, 0, 0, i >> 8 & 0xFF, i & 0xFF]) for i in range(n))),
+        25: (0xC0, bytes([0, 2]) + bytes(18), lambda n: b''.join(bytes([0, 2]) + bytes(14) + struct.pack('!L', i) for i in range(n))),
+        26: (0x80, b'\x01\x00\x0b' + struct.pack('!Q', 5), lambda n: b'\x01\x00\x0b' + struct.pack('!Q', 5) + b''.join(b'\x02\x00\x05' + struct.pack('!H', i & 0xFFFF) for i in range(n))),
+        29: (0x80, struct.pack('!HH', 1026, 4) + b'node', lambda n: b''.join(struct.pack('!HH', 1026, 4) + struct.pack('!L', i) for i in range(n))),
+        32: (0xC0, struct.pack('!LLL', 65000, 1, 2), lambda n: b''.join(struct.pack('!LLL', 65000, 1, i) for i in range(n))),
+        40: (0xC0, b'\x01\x00\x07' + bytes(3) + struct.pack('!L', 100), lambda n: b''.join(b'\x09\x00\x02' + struct.pack('!H', i & 0xFFFF) for i in range(n))),
+        0xFE: (0x80, b'', lambda n: bytes(n)),
+        0xFD: (0xC0, b'\x01', lambda n: bytes(n)),
+        0x63: (0xE0, b'\x01\x02', lambda n: bytes(n)),
+    }
+
+
+def attr_tlv(flag, code, val):
+    if len(val) > 255:
+        return bytes([flag | 0x10, code]) + struct.pack('!H', len(val)) + val
+    return bytes([flag & 0xEF, code, len(val)]) + val
+
+
+def work_shapes(c):
+    """name -> f(size) -> (message type, body): the same element repeated until the body has about `size` octets"""
+    shapes = {}
+    base = bytes([0x40, 1, 1, 0, 0x40, 2, 0, 0x40, 3, 4, 10, 0, 0, 1])
+    nlri = bytes([24, 10, 0, 0])
+
+    def wrap(attrs):
+        return 2, struct.pack('!H', 0) + struct.pack('!H', len(attrs)) + attrs + nlri
+
+    for code, (flag, small, large) in small_large_values(c).items():
+        lead = b'' if code in (1, 2, 3) else base
+        one = attr_tlv(flag, code, small)
+
+        def many(size, one=one, lead=lead):
+            return wrap(lead + one * max(2, (size - len(lead) - 8) // len(one)))
+
+        shapes[f'attribute-{code}-repeated-small'] = many
+        if large is not None:
+            per = len(large(2)) - len(large(1)) or 1
+
+            def few(size, flag=flag, code=code, large=large, per=per, lead=lead, copies=3):
+                n = max(1, (size - len(lead) - 8 - 4 * copies) // (per * copies))
+                return wrap(lead + b''.join(attr_tlv(flag, code, large(n)) for _ in range(copies)))
+
+            def single(size, flag=flag, code=code, large=large, per=per, lead=lead):
+                n = max(1, (size - len(lead) - 12) // per)
+                return wrap(lead + attr_tlv(flag, code, large(n)))
+
+            shapes[f'attribute-{code}-repeated-large'] = few
+            shapes[f'attribute-{code}-many-inner-elements'] = single
+    # the same inner element over and over inside one attribute (where a merge / de-duplication could hide)
+    same = {8: struct.pack('!HH', 65000, 1), 16: bytes([0, 2]) + struct.pack('!HL', 65000, 1), 32: struct.pack('!LLL', 65000, 1, 2),
+            10: bytes([1, 1, 1, 1]), 25: bytes([0, 2]) + bytes(18)}
+    for code, el in same.items():
+        flag = small_large_values(c)[code][0]
+        shapes[f'attribute-{code}-same-element-repeated'] = lambda size, flag=flag, code=code, el=el: wrap(base + attr_tlv(flag, code, el * max(1, (size - 30) // len(el))))
+    # different attribute codes interleaved, each repeated
+    mix = [attr_tlv(f, k, s) for k, (f, s, _) in small_large_values(c).items() if k not in (1, 2, 3, 14, 15)]
+    shapes['attributes-all-codes-interleaved'] = lambda size: wrap(base + b''.join(mix) * max(1, (size - 30) // len(b''.join(mix))))
+    return shapes
+
+
+def open_work_shapes():
+    """OPEN bodies (RFC 9072 parameters) repeating one capability"""
+    fixed = bytes([4]) + struct.pack('!HH', 65001, 180) + bytes([10, 0, 0, 2])
+    caps = {
+        'multiprotocol': bytes([1, 4]) + struct.pack('!HBB', 1, 0, 1),
+        'route-refresh': bytes([2, 0]),
+        'extended-next-hop': bytes([5, 6]) + struct.pack('!HHH', 1, 1, 2),
+        'add-path': bytes([69, 4]) + struct.pack('!HBB', 1, 1, 3),
+        'graceful-restart': bytes([64, 6]) + struct.pack('!H', 120) + struct.pack('!HBB', 1, 1, 0x80),
+        'asn4': bytes([65, 4]) + struct.pack('!L', 65001),
+        'hostname': bytes([73, 6]) + bytes([1]) + b'h' + bytes([3]) + b'dom',
+        'paths-limit': bytes([76, 5]) + struct.pack('!HBH', 1, 1, 10),
+        'unknown': bytes([200, 2, 1, 2]),
+    }
+    shapes = {}
+    for name, cap in caps.items():
+        def per_param(size, cap=cap):
+            p = (bytes([2]) + struct.pack('!H', len(cap)) + cap) * max(1, (size - 13) // (len(cap) + 3))
+            return 1, fixed + bytes([255, 255]) + struct.pack('!H', len(p)) + p
+
+        def one_param(size, cap=cap):
+            inner = cap * max(1, (size - 16) // len(cap))
+            p = bytes([2]) + struct.pack('!H', len(inner)) + inner
+            return 1, fixed + bytes([255, 255]) + struct.pack('!H', len(p)) + p
+
+        shapes[f'open-capability-{name}-repeated-parameters'] = per_param
+        shapes[f'open-capability-{name}-repeated-in-one-parameter'] = one_param
+    # list-valued capabilities with the same entry repeated inside one value (at most 255 octets: one length octet)
+    return shapes
+
+
+def decode_once(ty, body, c):
+    """what one observation of the linearity pass runs: decode, walk the routes, render the attributes"""
+    from exabgp.bgp.message import Message
+    from exabgp.bgp.message.notification import Notify
+
+    reset_caches()
+    try:
+        m = Message.unpack(ty, memoryview(body), c.neg)
+        if ty == 2 and not getattr(m, 'IS_EOR', False):
+            d = m.data
+            for _ in d.announces:
+                pass
+            for _ in d.withdraws:
+                pass
+            d.attributes.json()
+        elif ty == 1:
+            str(m)
+    except Notify:
+        pass
+
+
+def count_calls(f):
+    """a deterministic measure of work: Python and C function calls made while f runs (sys.setprofile)"""
+    counter = [0]
+
+    def prof(frame, event, arg, counter=counter):
+        if event == 'call' or event == 'c_call':
+            counter[0] += 1
+
+    sys.setprofile(prof)
+    try:
+        f()
+    finally:
+        sys.setprofile(None)
+    return counter[0]
+
+
+WORK_FACTOR = 3.0     # function calls per octet may grow by this much between the smallest and any larger size
+TIME_FACTOR = 8.0     # wall time per octet (best of N), only a secondary signal: a loaded machine must not raise an alarm
+
+
+def measure_work(tier):
+    """-> (table, findings).  For every repetition shape: function calls per octet (deterministic) and best-of-N seconds per
+    octet at 1k / 4k / 16k (/ 64k thorough; OPEN: 1k / 2k / 4k).  Super-linear = calls per octet more than WORK_FACTOR times
+    those of the 1k body (the count is deterministic), or best-of-N seconds per octet more than TIME_FACTOR times those of the
+    1k body on a decode of more than 50 ms, measured a second time (best of 7 at both ends) before it counts."""
+    cu = ctx('ext-all')
+    sizes_u = [1000, 4000, 16000] + ([64000] if tier != 'quick' else [])
+    sizes_o = [1000, 2000, 4000]
+    jobs = [(name, f, sizes_u, cu) for name, f in work_shapes(cu).items()] + [(name, f, sizes_o, ctx('as4-all')) for name, f in open_work_shapes().items()]
+    table, findings = {}, []
+    for name, f, sizes, c in jobs:
+        rows = []
+        stopped = None
+        for size in sizes:
+            ty, body = f(size)
+            body = bytes(body)
+            if len(body) + 19 > c.msg_size:
+                break
+            try:
+                with Watchdog(budget(body) * 4):
+                    calls = count_calls(lambda: decode_once(ty, body, c))
+                    secs = None
+                    for _ in range(3):
+                        t0 = time.perf_counter()
+                        decode_once(ty, body, c)
+                        dt = time.perf_counter() - t0
+                        secs = dt if secs is None or dt < secs else secs
+            except OutOfTime:
+                stopped = f'no result after {round(budget(body) * 4)} s at {len(body)} octets'
+                rows.append({'octets': len(body), 'calls': None, 'seconds': None, 'type': ty, 'body': body})
+                break
+            except Exception as exc:  # noqa: BLE001 - judged by the outcome oracle
+                stopped = f'{type(exc).__name__} at {len(body)} octets'
+                break
+            rows.append({'octets': len(body), 'calls': calls, 'seconds': secs, 'type': ty, 'body': body})
+            base = rows[0]
+            if len(rows) > 1 and base['calls']:
+                wr = (calls / len(body)) / (base['calls'] / base['octets'])
+                tr = (secs / len(body)) / max(base['seconds'] / base['octets'], 1e-12)
+                if tr > TIME_FACTOR and secs > 0.05 and wr <= WORK_FACTOR:
+                    # the clock alone says so: measure both ends again, best of 7, before believing it
+                    def best(t, b, n=7):
+                        out = None
+                        for _ in range(n):
+                            t0 = time.perf_counter()
+                            decode_once(t, b, c)
+                            dt = time.perf_counter() - t0
+                            out = dt if out is None or dt < out else out
+                        return out
+                    try:
+                        with Watchdog(budget(body) * 8):
+                            base['seconds'] = min(base['seconds'], best(base['type'], base['body']))
+                            secs = min(secs, best(ty, body))
+                    except OutOfTime:
+                        pass
+                    rows[-1]['seconds'] = secs
+                    tr = (secs / len(body)) / max(base['seconds'] / base['octets'], 1e-12)
+                    rows[-1]['time_confirmed_by_second_measurement'] = tr > TIME_FACTOR
+                rows[-1]['calls_per_octet_ratio'] = round(wr, 2)
+                rows[-1]['seconds_per_octet_ratio'] = round(tr, 2)
+                if wr > WORK_FACTOR or (tr > TIME_FACTOR and secs > 0.05):
+                    break   # no need to pay for the larger sizes
+        table[name] = {'rows': [{k: v for k, v in r.items() if k != 'body'} for r in rows], 'stopped': stopped}
+        bad = [r for r in rows[1:] if r.get('calls_per_octet_ratio', 0) > WORK_FACTOR
+               or (r.get('seconds_per_octet_ratio', 0) > TIME_FACTOR and (r['seconds'] or 0) > 0.05)]
+        if stopped and stopped.startswith('no result'):
+            bad = [rows[-1]]
+        if bad:
+            findings.append((name, rows, bad[0], c))
+    return table, findings
